@@ -409,6 +409,11 @@ def mutation_product(tier: str, stats: Stats) -> list[Violation]:
             except rfc6902.PatchError as e:
                 add('patch-does-not-apply', f"object {json.dumps(obj.get('spec'))} program {names}: returned ops {ops} do not apply: {e}")
                 continue
+            except (KeyError, TypeError, ValueError, IndexError, AttributeError) as e:
+                # not even well-formed RFC 6902 (a member an operation requires is missing, a value of the wrong type)
+                add('patch-does-not-apply', f"object {json.dumps(obj.get('spec'))} program {names}: returned ops {ops} are not a well-formed JSON patch: "
+                                            f"{type(e).__name__}: {e}", cls='malformed')
+                continue
             if prune_empty(got) != prune_empty(expected):
                 nullish = 'null' in json.dumps(got)
                 add('patch-unfaithful', f"object {json.dumps(obj.get('spec'))} program {names}: patch {ops} gives {json.dumps(prune_empty(got), ensure_ascii=False)}, "
